@@ -1047,7 +1047,8 @@ def personsHaveRole (x : Id) (ent : Nat) (role : List Nat) : HM (List Bool) := d
 
 /-- `Holder.clone(population)`: every attribute by reference except `population`, `simulation`
 (read from the new population) and — repair C13 — a new `InMemoryStorage` holding a copy of the
-dict; `_disk_storage` is still copied by reference -/
+dict.  This is the code path of a holder WITHOUT on-disk storage (`_disk_storage is None` is copied like any
+attribute); `cloneHolderR` below adds the branch of repair C13-disk -/
 def cloneHolder (rc : Nat) (newPop : Id) (hid : Id) : HM Id := do
   let ho ← rdHolder hid
   let np ← rdPop newPop
@@ -1102,6 +1103,86 @@ def cloneSim (s : Id) (trace : Bool) (debug : Bool) : HM Id := do
   let ns ← rdSim c
   wr c (.sim { ns with persons := persons', inval := inv })
   let groups' ← cloneGroups rc c (so.pops.filter (fun e => e.1 ≠ 0))
+  let tr ← new rc (.tracer ⟨trace, [], []⟩)
+  let ns ← rdSim c
+  wr c (.sim { ns with pops := (0, persons') :: groups', tracer := tr, trace := trace, debug := debug })
+  pure c
+
+/-! ## clone of any simulation (repair C13-disk): on-disk values are copied to a directory of the clone's own
+
+`cloneSim` above is what the repaired code does for a simulation whose holders have no on-disk storage (and
+that has made no temporary directory): the property theorems are proved about it.  `cloneSimR` is the
+transcription for EVERY simulation; the two coincide on memory-backed simulations (`Holder.clone` takes the
+`_disk_storage is None` branch for every holder and `new._data_storage_dir = None` changes nothing).  The
+driver runs `cloneSimR` for every case, and cross-checks `cloneSim` against it on memory-backed ones. -/
+
+/-- `shutil.copyfile` for every registered period file: the content is read in the source directory and
+written under the same file name in the new one -/
+def copyFiles (oldDir newDir : Id) (v : Var) : List Period → HM Unit
+  | [] => pure ()
+  | k :: rest => do
+    let od ← rdDir oldDir
+    let content ← ofOption .bad (alGet od.files (v, k))
+    let nd ← rdDir newDir
+    wrLeaf newDir (.dir ⟨alPut nd.files (v, k) content⟩)
+    copyFiles oldDir newDir v rest
+
+/-- the `_disk_storage` of a cloned holder: `new.create_disk_storage()` in the NEW simulation's temporary
+directory (made on first use), the period files copied there and registered in the same order -/
+def cloneDisk (rc : Nat) (newSim : Id) : Option Id → HM (Option Id)
+  | none => pure none
+  | some did => do
+    let d ← rdDisk did
+    let dirId ← dataStorageDir rc newSim
+    let did' ← new rc (.disk ⟨d.eternal, d.var, dirId, []⟩)
+    copyFiles d.dir dirId d.var d.files
+    wrLeaf did' (.disk ⟨d.eternal, d.var, dirId, d.files⟩)
+    pure (some did')
+
+/-- `Holder.clone(population)` (repaired): a new `InMemoryStorage` with a copy of the dict, and a new
+`OnDiskStorage` with copies of the files when the holder has one -/
+def cloneHolderR (rc : Nat) (newPop : Id) (hid : Id) : HM Id := do
+  let ho ← rdHolder hid
+  let np ← rdPop newPop
+  let st ← rdStore ho.mem
+  let mem ← new rc (.store ⟨st.eternal, st.arrays⟩)
+  let disk ← cloneDisk rc np.sim ho.disk
+  new rc (.holder { ho with pop := newPop, sim := np.sim, mem := mem, disk := disk })
+
+def cloneHoldersR (rc : Nat) (newPop : Id) : List (Var × Id) → HM (List (Var × Id))
+  | [] => pure []
+  | (v, hid) :: rest => do
+    let hid' ← cloneHolderR rc newPop hid
+    let rest' ← cloneHoldersR rc newPop rest
+    pure ((v, hid') :: rest')
+
+def clonePopR (rc : Nat) (newSim : Id) (pid : Id) : HM Id := do
+  let po ← rdPop pid
+  let members ← cloneMembers newSim po.members
+  let pid' ← new rc (.pop { po with sim := newSim, holders := [], members := members })
+  let hs ← cloneHoldersR rc pid' po.holders
+  let np ← rdPop pid'
+  wr pid' (.pop { np with holders := hs })
+  pure pid'
+
+def cloneGroupsR (rc : Nat) (newSim : Id) : List (Nat × Id) → HM (List (Nat × Id))
+  | [] => pure []
+  | (k, pid) :: rest => do
+    let pid' ← clonePopR rc newSim pid
+    let rest' ← cloneGroupsR rc newSim rest
+    pure ((k, pid') :: rest')
+
+/-- `Simulation.clone` (repaired): as `cloneSim`, with `new._data_storage_dir = None` before the populations
+are cloned -/
+def cloneSimR (s : Id) (trace : Bool) (debug : Bool) : HM Id := do
+  let so ← rdSim s
+  let rc ← newRegion
+  let c ← new rc (.sim { so with dir := none })
+  let inv ← new rc (.inval [])
+  let persons' ← clonePopR rc c so.persons
+  let ns ← rdSim c
+  wr c (.sim { ns with persons := persons', inval := inv })
+  let groups' ← cloneGroupsR rc c (so.pops.filter (fun e => e.1 ≠ 0))
   let tr ← new rc (.tracer ⟨trace, [], []⟩)
   let ns ← rdSim c
   wr c (.sim { ns with pops := (0, persons') :: groups', tracer := tr, trace := trace, debug := debug })
